@@ -39,6 +39,7 @@ pub const ALL_DEVIATIONS: &[(&str, &str)] = &[
   ("filter-null-base", "filtering null yields null instead of treating null as a singleton list"),
   ("function-dynamic-scope", "function values are not closures: the body is evaluated in the caller's scope, so captured names are lost or rebound"),
   ("in-list-null-item", "`x in [.., null, ..]` yields null as soon as a null item is reached"),
+  ("in-list-of-lists-multiset-inclusion", "`[3] in [[1, 2, 3]]` is true: a list in a list of lists is answered by multiset inclusion in the first inner list"),
   ("if-null-condition-ok", ""),
 ];
 
@@ -314,6 +315,27 @@ impl Interp {
   fn in_tests(&self, x: &RVal, tests: &[RVal]) -> RVal {
     if x.is_unspec_deep() || tests.iter().any(|t| t.is_unspec_deep()) {
       return RVal::Unspec;
+    }
+    // a list of numbers in a list of lists of numbers: the two readings of the text (a list among the tests is compared
+    // for equality / is searched) agree on false when no inner list equals the left one, since a number never equals a list.
+    // The implementation takes the first inner list as a multiset that must include the left list.
+    if let (RVal::List(xs), [RVal::List(items)]) = (x, tests) {
+      let nums = |l: &Vec<RVal>| l.iter().all(|v| matches!(v, RVal::Num(_)));
+      let inner: Vec<&Vec<RVal>> = items.iter().filter_map(|i| if let RVal::List(l) = i { Some(l) } else { None }).collect();
+      if !items.is_empty() && inner.len() == items.len() && nums(xs) && inner.iter().all(|l| nums(l)) && !inner.iter().any(|l| l.len() == xs.len() && l.iter().zip(xs.iter()).all(|(a, b)| same(a, b))) {
+        return self.deviate("in-list-of-lists-multiset-inclusion", RVal::Bool(false), || {
+          let mut rest: Vec<&RVal> = inner[0].iter().collect();
+          for v in xs {
+            match rest.iter().position(|r| same(r, v)) {
+              Some(k) => {
+                rest.remove(k);
+              }
+              None => return RVal::Bool(false),
+            }
+          }
+          RVal::Bool(true)
+        });
+      }
     }
     if matches!(x, RVal::List(_)) && tests.iter().any(|t| matches!(t, RVal::List(_))) {
       return RVal::Unspec; // list in list-of-lists: DMN text and vendors differ
